@@ -531,6 +531,10 @@ class ActiveCOVSubscriptions(Property):
     def ReadProperty(self, obj, arrayIndex=None):
         if _debug: ActiveCOVSubscriptions._debug("ReadProperty %s arrayIndex=%r", obj, arrayIndex)
 
+        # a list, not an array
+        if arrayIndex is not None:
+            raise ExecutionError(errorClass='property', errorCode='propertyIsNotAnArray')
+
         # get the current time from the task manager
         current_time = TaskManager().get_time()
         if _debug: ActiveCOVSubscriptions._debug("    - current_time: %r", current_time)
@@ -587,7 +591,7 @@ class ActiveCOVSubscriptions(Property):
 
         return cov_subscriptions
 
-    def WriteProperty(self, obj, value, arrayIndex=None, priority=None):
+    def WriteProperty(self, obj, value, arrayIndex=None, priority=None, direct=False):
         raise ExecutionError(errorClass='property', errorCode='writeAccessDenied')
 
 
